@@ -184,6 +184,20 @@ def rule_c(ctx):
     if m is None or c.fq == GEN:
       continue
     n += 1
+    # on every path of an iteration with `reward is not None`, the feedback
+    # counter is advanced (directly, or through self.feedback)
+    g = C.cfg_of(m.node)
+    rt = [k for k in g.nodes if k.kind == 'test' and A.unparse(k.ast) == 'reward is not None']
+    adv = lambda k: any(A.call_name(cc) in ('self.feedback', 'super().recover') for cc in k.calls()) or (
+        k.kind == 'stmt' and isinstance(k.ast, ast.AugAssign) and A.unparse(k.ast.target) == 'self._num_feedbacks')
+    if rt:
+      heads = [k for k in g.nodes if k.kind == 'iter']
+      for m2, lab in rt[0].succ:
+        if lab == 'true' and heads and not adv(m2):
+          w = g.can_skip(m2, adv, to=heads[0])
+          ctx.ob('C15.c', m.fq + '#feedback-counter-paths', w is None,
+                 'every fed-back DNA of the history advances the feedback counter, whichever branch '
+                 'restores it', m.loc, f'a path with a reward skips the counter: {w}')
     t = A.unparse(m.node, 9000)
     prop = 'self._num_proposals += 1' in t or 'super().recover(' in t
     fb = 'self._num_feedbacks += 1' in t or 'self.feedback(' in t or 'super().recover(' in t
